@@ -53,17 +53,18 @@ func opFrom(ctx context.Context) *OpRecord {
 
 // Generation is one process lifetime.
 type Generation struct {
-	Idx      int
-	dead     atomic.Bool
-	deadStep int
-	cancel   context.CancelFunc
-	ctx      context.Context
-	crashed  bool // died through an injected fault (as opposed to the orderly end of the run)
-	ledgers  []*ledgerInst
-	clients  []*Task
-	boot     []*Task
-	bootDone bool
-	bootFail bool
+	Idx                    int
+	dead                   atomic.Bool
+	deadStep               int
+	cancel                 context.CancelFunc
+	ctx                    context.Context
+	crashed                bool // died through an injected fault (as opposed to the orderly end of the run)
+	ledgers                []*ledgerInst
+	clients                []*Task
+	boot                   []*Task
+	bootDone               bool
+	bootFail               bool
+	shutdown, shutdownDone bool
 }
 
 type noopLogger struct{}
